@@ -22,6 +22,21 @@ class C03(PropBase):
             addr = rng.choice([1, 0xFFFFFF, 0, rng.randrange(1 << 24), rng.randrange(1 << 24)])
             frames.append(gen.rand_frame(rng, kind, addr))
             exp.append(addr)
+        # long address-parity frames (DF16/20/21) whose data block has a prefix that is a CRC code word itself, followed by a
+        # byte of zeros: the division register runs empty half-way through such a frame and fills again from what follows -
+        # the address is still the parity of the WHOLE data block
+        for i in range(n // 10):
+            k = rng.randrange(8, 57)
+            df = rng.choice([16, 20, 21])
+            head = (df << (k - 5)) | rng.randrange(1 << (k - 5))
+            rest_bits = 88 - (k + 32)
+            rest = rng.randrange(1, 1 << rest_bits) if rest_bits > 0 else 0
+            data = (((head << 24) | F.crc24(head, k)) << 8) << rest_bits | rest
+            addr = rng.randrange(1, 1 << 24)
+            frames.append(F.hexs((data << 24) | (F.crc24(data, 88) ^ addr), 112))
+            exp.append(addr)
+        n = len(frames)
+        kinds = [NINE[i % len(NINE)] for i in range(n)]
         for lo in range(0, n, 50000):
             chunk = frames[lo:lo + 50000]
             ops = ["reset", "case 0"] + ["q frame " + f for f in chunk]
@@ -35,7 +50,7 @@ class C03(PropBase):
                 want = exp[lo + k]
                 got = il.split(" icao=", 1)[1].split(" ", 1)[0]   # get_icao's answer (the record repeats the key)
                 w = "-" if want == 0 else str(want)
-                rep.count(NINE[(lo + k) % len(NINE)])
+                rep.count(kinds[lo + k] if lo + k < 10 * (n // 11) else "code-word prefix")
                 if got != w:
                     self.fail(rep, f"frame {f} built for address {want:06X} is attributed to {got}",
                               {"ops": ["q frame " + f], "frame": f, "expected_address": want, "impl": il})
